@@ -88,7 +88,7 @@ def main() -> int:
     ck.assumptions += [
         "TLC, SANY, CommunityModules Json; g++ 12 (C++17) for the generated revm.hpp/.cpp, with a declaration-only stand-in for tl/expected.hpp",
         "the front end's verdict on a pattern is taken from run.load_model on a meta-model that uses the pattern in a verification function",
-        "a C++ Match() that exceeds 400 ms of CPU time on strings of length <= 5 is observed as 'hang'",
+        "a C++ Match() call is observed as 'hang' when the program exceeds 400 ms of CPU on the case's strings and the string it got stuck on (length <= 5) does not finish within 2.5 s of CPU on its own either",
         "the big-step VM semantics used for conformance is model-checked against the small-step state machine in the same run (M)",
         "wchar_t is 32 bit here: the compiled C++ runs the UTF-32 programs; the UTF-16 programs are run by the spec VM only",
     ]
